@@ -38,6 +38,11 @@ func sinkOn(in ssa.Instruction, out ssa.Value) (key, val ssa.Value, ok bool) {
 		if calleeKey(&x.Call) == omMethod("Set") && x.Call.Args[0] == out {
 			return x.Call.Args[1], x.Call.Args[2], true
 		}
+		if calleeKey(&x.Call) == "builtin append" && x.Call.Args[0] == out {
+			if _, isPhi := out.(*ssa.Phi); isPhi {
+				return nil, x.Call.Args[1], true
+			}
+		}
 	case *ssa.Store:
 		if ia, isIA := x.Addr.(*ssa.IndexAddr); isIA && ia.X == out {
 			return ia.Index, x.Val, true
@@ -74,6 +79,10 @@ func (p *Prov) walkerLoops(fn *ssa.Function) []*IterCheck {
 						}
 					}
 				}
+				if ac, ok := in.(*ssa.Call); ok && calleeKey(&ac.Call) == "builtin append" && isAccumulatorPhi(ac.Call.Args[0], l.Loop.Header) && isAnySlice(ac.Type()) {
+					cands[ac.Call.Args[0]] = true
+					continue
+				}
 				if recv == nil {
 					continue
 				}
@@ -94,7 +103,10 @@ func (p *Prov) walkerLoops(fn *ssa.Function) []*IterCheck {
 		}
 		for _, o := range cl {
 			ic := &IterCheck{Fn: fn, Loop: l, Out: o}
+			_, isAcc := o.(*ssa.Phi)
 			switch {
+			case isAcc:
+				ic.Mode = "append"
 			case o == l.Coll:
 				ic.Mode = "in-place"
 			case l.Kind == "omap":
@@ -247,6 +259,7 @@ func (ic *IterCheck) noteSink(p *Prov, in ssa.Instruction, key, val ssa.Value) {
 		if why := p.keyIsLoopKey(key, l, 0); why != "" {
 			ic.KeyProblems = append(ic.KeyProblems, fmt.Sprintf("%s at %s", why, p.c.InstrPos(in)))
 		}
+	case "append":
 	default:
 		if key != l.Idx {
 			ic.KeyProblems = append(ic.KeyProblems, "element stored at an index other than the loop index at "+p.c.InstrPos(in))
